@@ -43,6 +43,7 @@ Opt(t)           == T("opt", "", 0, <<t>>, <<>>)
 Res(t, e)        == T("res", "", 0, <<t, e>>, <<>>)
 Bx(kind, t)      == T("box", kind, 0, <<t>>, <<>>)
 Tup(ts)          == T("tup", "", 0, ts, <<>>)
+Rng(t)           == T("tup", "Range", 0, <<t, t>>, <<>>)          \* std::ops::Range<T>: start, end
 Map(kind, k, v)  == T("map", kind, 0, <<k, v>>, <<>>)
 Lib(name)        == T("lib", name, 0, <<>>, <<>>)
 \* struct: s = repr ("Rust" | "C"), n = 0 named / 1 tuple-struct, ts = field types
@@ -118,7 +119,7 @@ BitKinds == {"BitVec", "BitSet", "BitVec08", "BitSet08"}
 (* Library types: wire-equivalent descriptor                          *)
 (* ------------------------------------------------------------------ *)
 LibEquiv(name) ==
-    CASE name \in {"ArcStr", "PathBuf"} -> Str
+    CASE name \in {"ArcStr", "PathBuf", "ArrayString"} -> Str
       [] name = "IpAddr"     -> Enum("", <<Var(0, <<P("u32")>>), Var(0, <<P("u128")>>)>>)
       [] name = "SocketAddr" -> Enum("", <<Var(0, <<P("u16"), P("u32")>>),
                                            Var(0, <<P("u16"), P("u128"), P("u32"), P("u32")>>)>>)
